@@ -398,6 +398,7 @@ class SSPOR(BaseEstimator):
             The score.
         """
         check_is_fitted(self, "ranked_sensors_")
+        x = validate_input(x)
 
         n_input_features = len(x) if np.ndim(x) == 1 else x.shape[1]
         n_expected_features = len(self.ranked_sensors_)
